@@ -867,6 +867,75 @@ class ProxyScenario(explore.Scenario):
         return any(e[0] in ('cancel', 'recancel') for e in hist)
 
 
+def run_long_lived_router(gap, keep):
+    """a long-lived router: rule A stays registered while gap-1 other rules
+    come and go (`keep` of them staying registered at any time), then rule
+    B is added: A and B both still run for their signals, removing either
+    leaves the other"""
+    from txdbus import router as RT
+    viol = []
+    try:
+        rt = RT.MessageRouter()
+        hits = []
+        ida = rt.addMatch(lambda m: hits.append('A'), member='Alpha')
+        kept = []
+        for i in range(gap - 1):
+            kept.append(rt.addMatch(lambda m: hits.append('other'),
+                                    member='Other'))
+            if len(kept) > keep:
+                rt.delMatch(kept.pop(0))
+        idb = rt.addMatch(lambda m: hits.append('B'), member='Beta')
+
+        def route(member):
+            del hits[:]
+            rt.routeMessage(to_txmsg(
+                {'type': 4, 'fields': {'path': '/a', 'interface': 'a.b',
+                                       'member': member}, 'sig': '',
+                 'body': []}))
+            return list(hits)
+        got = [route('Alpha'), route('Beta')]
+        if got != [['A'], ['B']] or ida == idb:
+            viol.append(('long-lived-router/%s' % (
+                'same-id' if ida == idb else 'lost-rule'),
+                'rule A (id %r) registered, %d other rules added and '
+                'removed (%d registered at a time), rule B (id %r) added: '
+                'signals for A and B ran %r' % (ida, gap - 1, keep, idb,
+                                                got)))
+            return viol
+        rt.delMatch(idb)
+        got = [route('Alpha'), route('Beta')]
+        if got != [['A'], []]:
+            viol.append(('long-lived-router/after-removal',
+                         'after removing rule B (id %r; A has id %r, %d '
+                         'rules in between): signals for A and B ran %r'
+                         % (idb, ida, gap - 1, got)))
+        for k in kept:
+            rt.delMatch(k)
+        rt.delMatch(ida)
+        got = [route('Alpha'), route('Beta'), route('Other')]
+        if got != [[], [], []]:
+            viol.append(('long-lived-router/after-removing-all',
+                         'every rule removed; signals ran %r' % (got,)))
+    except Exception as e:
+        viol.append(('long-lived-router/raises-%s' % type(e).__name__,
+                     '%d rules between A and B: raised %r' % (gap - 1, e)))
+    return viol
+
+
+def _task_long_lived_router(gap):
+    res = core.Result()
+    for keep in (0, 3):
+        res.count('states')
+        res.count('transitions', gap * 2)
+        res.count('evaluations')
+        res.count('nontrivial')
+        for t, w in run_long_lived_router(gap, keep):
+            res.violation('%s/%s' % (PROP, t), w,
+                          {'part': 'long-lived-router', 'args': [gap, keep]},
+                          size=gap)
+    return res
+
+
 def run(ctx):
     mk = 3 if ctx.quick else 9
     ctx.rule = (
@@ -888,7 +957,9 @@ def run(ctx):
         'proxies on two connections of one process, two of them with identical rule text, against a harness that keeps the bus\'s multiset of rules. E: one argument constraint (exact string, '
         'path) at every index 0..63 against signals whose argument there '
         'matches, differs, is not a string, is missing or sits one place '
-        'early - through the router, the rule text and the built-in bus'
+        'early - through the router, the rule text and the built-in bus. F: '
+        'a long-lived router: 254..257 / 65534..65537 rules added and '
+        'removed between two rules that stay'
         % (KEYS, mk, len(rules(mk)), len(messages()), len(BODIES)))
     ctx.assumptions = ['sender and arg0namespace constraints are outside the '
                        'statement and not enumerated']
@@ -901,6 +972,10 @@ def run(ctx):
     ctx.map(_task_argindex_router, [(i, n) for i in range(n)])
     ctx.map(_task_text, [('argindex', i, n) for i in range(n)])
     ctx.map(_task_proxy, [0])
+    from mcx import scale
+    ctx.map(_task_long_lived_router,
+            scale.LADDER_SMALL[3:] + scale.LADDER_WORD
+            + ([] if ctx.quick else [2 * 65536, 2 * 65536 + 1]))
     explore.explore(ctx, ProxyScenario, {'dedup': False},
                     max_depth=4 if ctx.quick else 5,
                     label='proxy subscriptions on two connections, all '
@@ -915,6 +990,9 @@ def replay(data):
     if 'scenario' in data:
         return explore.replay_violation(data)
     res = core.Result()
+    if data['part'] == 'long-lived-router':
+        return [('%s/%s' % (PROP, t), w) for t, w in
+                run_long_lived_router(*data['args'])]
     if data['part'] == 'pair':
         from txdbus import router as RT
         rt = RT.MessageRouter()
